@@ -165,7 +165,8 @@ def foreign_transport_io(log):
     thread reads from / writes to a transport of another generation."""
     own = {}
     for seq, role, kind, pl in log.events:
-        if kind not in ('io.read', 'io.send') or not role.startswith('net#'):
+        if kind not in ('io.read', 'io.send', 'io.shutdown', 'io.close') \
+                or not role.startswith('net#'):
             continue
         g = pl.get('gen')
         if role not in own:
@@ -203,6 +204,12 @@ def stale_thread_findings(run, log, w):
         if foreign[3] == 'io.send' and path.endswith(
                 '_react>react>disconnect>_pop_packet>_write_packet'):
             key = 'stale-thread/reaction-disconnect-flushes-successor'
+        elif foreign[3] in ('io.shutdown', 'io.close') and path.endswith(
+                '_react>react>disconnect'):
+            key = 'stale-thread/reaction-disconnect-flushes-successor'
+        elif foreign[3] in ('io.shutdown', 'io.close') and path.endswith(
+                'run>_handle_exception>disconnect'):
+            key = 'stale-thread/error-teardown-closes-successor'
         else:
             key = 'threads/io-on-foreign-transport/%s/via:%s' % (foreign[3],
                                                                  path)
@@ -489,6 +496,117 @@ def history_case(run, rng, pv, actions, idx):
                 pass
 
 
+def handover_gap_case(run, rng, pv, variant):
+    """Delay injection at an existing suspension point: the successor thread's
+    join() on its predecessor is held open *after* the predecessor has fully
+    ended, so the connection sits in the hand-over gap (no current thread, a
+    pending successor) while a second user thread calls connect()/status()/
+    disconnect().  The calls must be refused (or, for disconnect, honoured)
+    exactly as for an active connection."""
+    from minecraft.exceptions import InvalidState
+    from minecraft.networking import connection as C
+    H = Harness(pv)
+    rec = pc.Recorder()
+    conn = None
+    gap_open, gap_close = threading.Event(), threading.Event()
+    orig_join = C.NetworkingThread.join
+    w = {'pv': pv, 'variant': variant}
+
+    def join(self, timeout=None):
+        r = orig_join(self, timeout)
+        if threading.current_thread() is not threading.main_thread() and \
+                isinstance(threading.current_thread(), C.NetworkingThread) \
+                and not gap_open.is_set():
+            gap_open.set()
+            gap_close.wait(5.0)
+        return r
+    try:
+        K = pc.monitored_connection_class()
+        conn = K('127.0.0.1', H.server.port, username='vfuser',
+                 allowed_versions={pv}, handle_exception=rec.handle_exception,
+                 handle_exit=rec.handle_exit)
+        conn.vf_log = rec.log
+        from minecraft.networking.packets import clientbound
+
+        def on_chat(packet):
+            # reconnect from inside the networking thread: the predecessor is
+            # certainly alive when the successor is created
+            if 'reconnect' in packet.json_data:
+                conn.disconnect(immediate=variant.endswith('imm'))
+                conn.connect()
+        conn.register_packet_listener(on_chat,
+                                      clientbound.play.ChatMessagePacket)
+        conn.connect()
+        if not pc.wait_for(lambda: H.ios and getattr(H.ios[-1], 'phase', '')
+                           == 'play', 10.0):
+            return 'first session never reached play'
+        first = H.ios[-1]
+        C.NetworkingThread.join = join
+        H.next_mode = 'hold'
+        first.cmds.put(('trigger',))         # successor waits for predecessor
+        if not gap_open.wait(8.0):
+            return 'hand-over gap never opened'
+        n_ios = len(H.ios)
+        in_gap = (conn.networking_thread is None and
+                  conn.new_networking_thread is not None)
+        run.count('gap.reached' if in_gap else 'gap.not_reached')
+        results = []
+
+        def second_user():
+            for op in ('connect', 'status'):
+                try:
+                    if op == 'connect':
+                        conn.connect()
+                    else:
+                        conn.status(handle_status=False, handle_ping=False)
+                    results.append((op, None))
+                except BaseException as e:
+                    results.append((op, e))
+        t = threading.Thread(target=second_user, name='user-b')
+        t.start()
+        t.join(10.0)
+        time.sleep(0.02)
+        opened = len(H.ios) - n_ios
+        gap_close.set()
+        C.NetworkingThread.join = orig_join
+        for op, e in results:
+            if not isinstance(e, InvalidState):
+                run.violation('handover-gap/%s-not-refused' % op, 'a call made'
+                              ' while a successor thread is pending (the '
+                              'predecessor has just ended) was not refused '
+                              'with InvalidState', dict(w, got=repr(e),
+                                                        in_gap=in_gap))
+        # only the pending reconnect may have opened a TCP connection
+        pc.wait_for(lambda: getattr(H.ios[-1], 'phase', '') == 'play'
+                    and H.ios[-1] is not first, 10.0)
+        total_new = len(H.ios) - (H.ios.index(first) + 1)
+        if total_new != 1:
+            run.violation('handover-gap/extra-tcp', 'calls in the hand-over gap'
+                          ' opened additional TCP connections',
+                          dict(w, new_connections=total_new))
+        elif not H.alive(H.ios[-1]):
+            run.violation('handover-gap/session-disturbed', 'the pending '
+                          'reconnect did not become a working session',
+                          dict(w, exc=repr(rec.exceptions[:1])))
+        alive = [th for th in threading.enumerate()
+                 if isinstance(th, C.NetworkingThread)
+                 and th.connection is conn]
+        if len(alive) > 1:
+            run.violation('handover-gap/two-threads', 'two networking threads '
+                          'are alive for one connection', dict(w))
+        run.count('gap.cases')
+        return None
+    finally:
+        C.NetworkingThread.join = orig_join
+        gap_close.set()
+        H.stop()
+        if conn is not None:
+            try:
+                conn.disconnect(immediate=True)
+            except Exception:
+                pass
+
+
 def stress_case(run, rng, pv, idx):
     """Two user threads issue random calls concurrently."""
     from minecraft.exceptions import InvalidState
@@ -628,6 +746,19 @@ def run(run):
             run.inconclusive_because('history %r: %s' % (actions, err))
         elif len(run.samples) < 3 and len(actions) >= 3:
             run.sample({'history': actions})
+    for i in range(40 if thorough else 8):
+        if not run.mine(i):
+            continue
+        variant = ('flush', 'imm')[i % 2]
+        err = None
+        for attempt in range(3):
+            err = handover_gap_case(run, rng, rng.choice((757, 404, 340)),
+                                    variant)
+            if err is None:
+                break
+        run.case(('gap', i, variant))
+        if err:
+            run.inconclusive_because('hand-over gap %d: %s' % (i, err))
     for i in range(300 if thorough else 24):
         if not run.mine(i):
             continue
@@ -644,3 +775,4 @@ def run(run):
     run.require('refusals_on_active', 3)
     run.require('disconnects_of_idle', 5)
     run.require('stress_runs', 2)
+    run.require('gap.reached', 2)
